@@ -162,6 +162,36 @@ CLAIMED = {
         technique="TLA+ specs Sdo || CoE, TLC exhaustive design check; TLC-enumerated reply scripts; real "
                   "transfers on a simulated bus; TLC batched trace validation",
         design_ref="5/C16"),
+
+    "C11": dict(
+        category="model_checking",
+        text="Frame.tla (Append accounting, Assemble, an independent parser WellFormed, Sterile) is model-checked "
+             "exhaustively at a scaled-down frame size. TLC enumerates fill / probe / tail datagram sequences (up "
+             "to 17 datagrams; lengths 0, 1, 2, 31, 32, ..., 1400, 1471 and room-1, room, room+1 around the "
+             "1500-byte limit; position, node and logical addressing; 11 commands incl. writers; working-counter "
+             "presets; the empty sequence). Each is replayed on real Packet and SterilePacket objects and TLC "
+             "validates clause by clause: accept/reject, returned (start, stop), and the bytes of assemble / "
+             "sterile (length field and type nibble, identification datagram, every header and 'more' flag, data "
+             "and counter at the reported positions, size <= 1500, padding to 46, sterile copy equal except NOP "
+             "in the writers' command byte).",
+        note="The 15-datagram count limit is not demanded: a rejection for count is bound from the first such "
+             "rejection and then held. IRQ bytes and padding values are free. Addresses stay in the ranges "
+             "struct.pack accepts.",
+        technique="TLA+ spec Frame + TLC exhaustive model; TLC-enumerated sequences replayed on real code; TLC "
+                  "trace validation",
+        design_ref="5/C11"),
+    "C13": dict(
+        category="model_checking",
+        text="Codec.tla defines Payload and Decoded (with a RoundTrip invariant relating them). TLC enumerates "
+             "requests: 0-2 (thorough 0-3) valued format strings from {B, H, I, HI, H2xH, 4x, 8s} with boundary "
+             "values, an optional trailing read-only format, raw data in {absent, count 0, count 3, b'', 1-3 "
+             "bytes}, plus random requests; each is made through the real EtherCat.roundtrip with a queue "
+             "consumer returning a position-dependent response; TLC validates the payload sent and the tuple "
+             "returned (or the exception).",
+        note="Unsigned integer, pad and byte-string fields only; without any format the raw bytes may come back "
+             "bare rather than as a 1-tuple.",
+        technique="TLA+ spec Codec; TLC-enumerated requests replayed on real code; TLC trace validation",
+        design_ref="5/C13"),
 }
 NOT_YET = "not yet built in this round (planned in DESIGN.md section 5)"
 NOT_APPLICABLE = {}
